@@ -1,7 +1,7 @@
 (** Property C05 — flush/open round trip: ids, schema, universe, membership; both writers
     agree.  Theorem statements only; proofs are [exact] of lemmas of IndexProofs.v,
     BigProofs.v, SchemaProofs.v, DataPlane.v. *)
-From updog Require Import Prelude Index IndexProofs BigProofs SchemaProofs GroupByProofs DataPlane.
+From updog Require Import Prelude Index IndexProofs BigProofs SchemaProofs GroupByProofs DataPlane KeyBytes KeyBytesProofs.
 Local Open Scope N_scope.
 
 Section C05.
@@ -51,6 +51,34 @@ Example C05_instance :
     = Ok [([97], [[49]; [50]]); ([98], [[120]])].
 Proof. split; vm_compute; reflexivity. Qed.
 
+(** The bytes (KeyBytes.v): the numeric order in which the model walks the big writer's temp
+    bucket is the byte order in which bbolt's cursor yields the keys be64(value index) ‖
+    be32(row id) — for every value index below 2^64 and row id below 2^32, also beyond 2^63 —
+    and the keys decode to what was encoded.  With little-endian keys this fails. *)
+Theorem C05_temp_key_order h r h' r' :
+  h < 2^64 → h' < 2^64 → r < 2^32 → r' < 2^32 →
+  str_ltb (temp_key h r) (temp_key h' r') = true ↔ (h < h' ∨ (h = h' ∧ r < r')).
+Proof. exact (temp_key_lt h r h' r'). Qed.
+Theorem C05_temp_key_decode h r : h < 2^64 → r < 2^32 → temp_key_decode (temp_key h r) = (h, r).
+Proof. exact (temp_key_decode_key h r). Qed.
+Theorem C05_cursor_is_model_order (l : list (N * N)) :
+  Forall (λ k, k.1 < 2^64 ∧ k.2 < 2^32) l →
+  map (λ k, temp_key k.1 k.2) (merge_sort key_le l) = cursor_order (map (λ k, temp_key k.1 k.2) l).
+Proof. exact (cursor_order_is_key_order_nodup_free l). Qed.
+Theorem C05_little_endian_refuted : ∃ n m, n < m ∧ m < 2^64 ∧ str_ltb (le 8 n) (le 8 m) = false.
+Proof. exact little_endian_refuted. Qed.
+(** In the written file the header keys I and S precede every value key, value keys are ordered
+    by value index, and the row counter decodes to the number of rows. *)
+Theorem C05_header_keys_first h :
+  str_ltb key_count (value_key h) = true ∧ str_ltb key_schema (value_key h) = true ∧ str_ltb key_count key_schema = true.
+Proof. exact (header_keys_before_values h). Qed.
+Theorem C05_value_key_order h h' : h < 2^64 → h' < 2^64 → str_ltb (value_key h) (value_key h') = (h <? h').
+Proof. exact (value_key_lt h h'). Qed.
+Theorem C05_count_roundtrip n : n < 2^32 → be_decode (count_value n) = n.
+Proof. exact (count_value_decode n). Qed.
+
+Print Assumptions C05_cursor_is_model_order.
+Print Assumptions C05_temp_key_order.
 Print Assumptions C05_ids_mem.
 Print Assumptions C05_ids_big.
 Print Assumptions C05_writers_equal.
